@@ -172,6 +172,14 @@ def capable(ctx: Ctx, rep: Report) -> None:
         rep.count()
         mentions = {x.attr for x in ast.walk(f.node)
                     if isinstance(x, ast.Attribute)}
+        # the predicate may live in a helper of the same module
+        for k in ast.walk(f.node):
+            if isinstance(k, ast.Call):
+                r = ctx.index.resolve_call(k, f, qf)
+                if r is not None and getattr(r, 'path', '') == f.path and (
+                        hasattr(r, 'node')):
+                    mentions |= {x.attr for x in ast.walk(r.node)
+                                 if isinstance(x, ast.Attribute)}
         exempt = bool(mentions & {
             'num_params', 'is_constant', 'is_parameterized'})
         rep.check(
